@@ -62,14 +62,24 @@ Proof.
     all: match goal with H : _ \/ _ |- _ => destruct H as [[Hx _]|(Hx & _)]; congruence end.
 Qed.
 
+(* the internal mutex of Signal is only ever unlocked by its owner (so the owner-blind unlock of a default-type
+   mutex never frees somebody else's hold on it) *)
+Lemma sig_unlock_owned w t : sig_local w t -> pending (pc (tc w t)) = PUnlock SM -> m_owner (mtx (ps w) SM) = Some t.
+Proof.
+  unfold sig_local. destruct (pc (tc w t)); cbn [pending]; intros H E; try discriminate E; try exact H; try (inversion E; fail).
+  destruct H; auto.
+Qed.
+
 Lemma sig_local_other_return w t p' r u : I2 w ->
   runnable (st (ps w) t) = true ->
-  prim_step (ps w) t (pending (pc (tc w t))) = Return p' r -> u <> t ->
+  prim_step (ps w) t (pending (pc (tc w t))) = Return p' r -> u <> t -> sig_local w t ->
   sig_local w u -> sig_local (after_return (set_ps w p') t (pc (tc w t)) r) u.
 Proof.
-  intros H2 Hr Hp Hu H. apply sig_local_frame with (w := w); auto.
+  intros H2 Hr Hp Hu Ht H. apply sig_local_frame with (w := w); auto.
   - rewrite tc_after_return_other by auto. reflexivity.
-  - intros o Ho ->. rewrite ps_after_return. wsimpl. eapply prim_step_foreign_owner; eauto. rewrite Hp; reflexivity.
+  - intros o Ho ->. rewrite ps_after_return. wsimpl.
+    apply (prim_step_foreign_owner (ps w) t (pending (pc (tc w t))) p' SM u); auto; [rewrite Hp; reflexivity|].
+    left. intros E. apply sig_unlock_owned in E; auto. congruence.
   - intros Ho. eapply sigf_after_return_foreign; eauto.
   - rewrite ps_after_return. wsimpl. intros Hs. eapply st_evolves_run; [|apply H2|exact Hs].
     eapply prim_step_st_other; eauto; [rewrite Hp; reflexivity|now apply runnable_not_ns].
@@ -80,7 +90,7 @@ Ltac sig_fin Hok Hst := cbn [sig_ok sig_state is_sig_wait is_mon_wait andb b2z];
 Lemma SigInv_step s0 w mv : I1 w -> I2 w -> SigInv s0 w -> SigInv s0 (step w mv).
 Proof.
   intros H1 H2 (Hst & Hok & HL). unfold SigInv.
-  destruct mv as [t|t|t|n|c]; cbn [step].
+  destruct mv as [t|t|t|t|n|c]; cbn [step].
   - rewrite trace_clear_mark, sigf_clear_mark.
     assert (Hcm : forall w', (forall u, sig_local w' u) -> forall u, sig_local (clear_mark_on_block w w' t) u).
     { intros w' H u. unfold sig_local. rewrite tc_clear_mark, ps_clear_mark, sigf_clear_mark. apply H. }
@@ -101,12 +111,13 @@ Proof.
         apply prim_step_progress in Hp as (c' & m & dl & Hc & Hst' & [[_ ->]|(_ & _ & ->)]); wsimpl; upd_simpl;
           destruct (pc (tc w t)); try discriminate Hc; auto; intros; discriminate.
       * apply sig_local_frame with (w := w); auto; wsimpl.
-        -- intros o Ho ->. eapply prim_step_foreign_owner; eauto. rewrite Hp; reflexivity.
+        -- intros o Ho ->. apply (prim_step_foreign_owner (ps w) t (pending (pc (tc w t))) p' SM u); auto; [rewrite Hp; reflexivity|].
+           left. destruct (prim_step_progress _ _ _ _ Hp) as (c' & m' & dl' & -> & _). discriminate.
         -- intros Hs. eapply st_evolves_run; [|apply H2|exact Hs].
            eapply prim_step_st_other; eauto; [rewrite Hp; reflexivity|now apply runnable_not_ns].
     + assert (Hself : st p' t = TRun) by (eapply prim_step_st_self_return; eauto; now apply I2_self_ok).
       split; [|split].
-      3:{ apply Hcm. intros u. destruct (Nat.eq_dec u t) as [->|Hu]; [|now apply sig_local_other_return].
+      3:{ apply Hcm. intros u. destruct (Nat.eq_dec u t) as [->|Hu]; [|apply sig_local_other_return; auto].
           pose proof (H2 t) as H2t. unfold sig_local. rewrite ps_after_return. wsimpl.
           destruct (pc (tc w t)) eqn:Hpc'; try congruence; prim_inv Hp; subst;
             cbn [after_return]; wsimpl; consts; dif; wsimpl; upd_simpl; wsimpl; auto;
@@ -143,6 +154,9 @@ Proof.
     + wsimpl. repeat split; auto. intros u. apply sig_local_frame with (w := w); auto; wsimpl;
         unfold prim_timeout; rewrite Hst'; destruct dl as [d|]; auto; destruct (dl_expired d _); auto;
         wsimpl; auto; destruct (Nat.eq_dec u t) as [->|]; upd_simpl; try (intros; discriminate); auto.
+  - wsimpl. repeat split; auto. intros u. apply sig_local_frame with (w := w); auto; wsimpl;
+      destruct (steal_shape (ps w) t) as [->|(m & rc & d & Hs & _ & ->)]; wsimpl; auto;
+      destruct (Nat.eq_dec u t) as [->|]; upd_simpl; try (intros; discriminate); auto.
   - wsimpl. repeat split; auto.
   - wsimpl. repeat split; auto. intros u. apply sig_local_frame with (w := w); auto; wsimpl;
       unfold prim_rotate; destruct (cnd (ps w) c); auto.
@@ -170,7 +184,7 @@ Qed.
 Lemma SigLive_step s0 w mv : I2 w -> SigInv s0 w -> SigLive w -> SigLive (step w mv).
 Proof.
   intros H2 (_ & _ & HL) HS. unfold SigLive.
-  destruct mv as [t|t|t|n|c]; cbn [step].
+  destruct mv as [t|t|t|t|n|c]; cbn [step].
   - rewrite sigf_clear_mark, ps_clear_mark.
     assert (Hcm : forall w', pending_bcast w' -> pending_bcast (clear_mark_on_block w w' t)).
     { intros w' (v & Hv). exists v. now rewrite tc_clear_mark. }
@@ -217,6 +231,9 @@ Proof.
       * pose proof (H2 t) as H2t. rewrite Hst' in H2t. cbn in H2t. destruct (pc (tc w t)); try discriminate; split; discriminate.
       * revert Hu. unfold prim_timeout. rewrite Hst'. destruct dl as [d|]; auto. destruct (dl_expired d _); auto.
         wsimpl. destruct (Nat.eq_dec u t) as [->|]; upd_simpl; cbn; intros; try discriminate; auto.
+  - wsimpl. intros Hf u Hu. destruct (HS Hf u) as (v & Hv); [|exists v; exact Hv].
+    revert Hu. destruct (steal_shape (ps w) t) as [->|(m & rc & d & Hs & _ & ->)]; auto.
+    wsimpl. destruct (Nat.eq_dec u t) as [->|]; upd_simpl; cbn; intros; try discriminate; auto.
   - exact HS.
   - wsimpl. intros Hf u Hu. apply (HS Hf u). revert Hu. unfold prim_rotate. destruct (cnd (ps w) c); auto.
 Qed.
